@@ -197,12 +197,23 @@ def run(ctx):
         Cell.__eq__ = counted_eq
         try:
             try:
-                calls, dt, blob = count_hash_calls(lambda: (root.order({}), root.to_boc(), a == b, root == root.copy())[1],
-                                                   budget=400 * (k + 3))
+                # (under a wall-clock limit as well: a traversal that does not go through __eq__/__hash__ has no counter)
+                res = []
+                r = core.call_impl(lambda _: res.append(count_hash_calls(lambda: (root.order({}), root.to_boc(), a == b)[1],
+                                                                          budget=400 * (k + 3))) or "ok", None, timeout_s=20)
+                calls, dt, blob = res[0] if r == "ok" and res else (-1, 0, None)
             except BudgetExceeded:
                 calls, blob = -1, None
         finally:
             Cell.__eq__ = orig_eq
+        # every public derivation of a shared DAG is linear in its cells: copy(), begin_parse().to_cell(), to_builder().end_cell()
+        for nm, fn in (("copy", lambda: root.copy()), ("slice-to-cell", lambda: root.begin_parse().to_cell()),
+                       ("to_builder", lambda: root.to_builder().end_cell()), ("hash-recompute", lambda: root.calculate_representation_hash())):
+            t0 = time.time()
+            r = core.call_impl(lambda _: fn() and "ok", None, timeout_s=10)
+            if r != "ok" or time.time() - t0 > 3.0:
+                ctx.fail("derivation-work-superlinear:" + nm, f"{nm} of a {k + 3}-cell shared DAG: {r}, {time.time() - t0:.1f}s", {"twin": k})
+                break
         if blob is None:
             ctx.fail("order-work-superlinear:twin-objects", f"{k + 2} distinct cells present as two object graphs: more than "
                      f"{budget} equality/hash operations in order()/to_boc() (cut off)", {"twin": k})
